@@ -91,3 +91,70 @@ func TestReplay_BeginBlockRewardHeightAtBlock4(t *testing.T) {
 		t.Fatalf("REPLAY-VIOLATION: the delegator whose stake was bonded at height 2 earned %s at height 4", r.GetCumulated().Dec())
 	}
 }
+
+// F6 (C06): StakeCtrler.ValidateTrx runs the stake limiter on the mempool-check path too, and
+// StakeLimiter.CheckLimit mutates the limiter (powObj.Power, updatedPower). A CheckTx served between BeginBlock
+// and the DeliverTx of the same transaction changes the DeliverTx verdict.
+func zzThreeValidators(t *testing.T, dir string) (*stake.StakeCtrler, ctrlertypes.IGovHandler, *mocks.AcctHandlerMock, func(h int64, txs ...*ctrlertypes.TrxContext) *ctrlertypes.BlockContext) {
+	os.RemoveAll(dir)
+	cfg := rigocfg.DefaultConfig()
+	cfg.DBPath = dir
+	gov := ctrlertypes.Test6GovParams_NoStakeLimiter()
+	ctrler, xerr := stake.NewStakeCtrler(cfg, gov, tmlog.NewNopLogger())
+	if xerr != nil {
+		t.Fatal(xerr)
+	}
+	acct := mocks.NewAccountHandlerMock(5)
+	acct.Iterate(func(idx int, w *web3.Wallet) bool {
+		w.GetAccount().SetBalance(rigotypes.ToFons(1_000_000_000))
+		return true
+	})
+	begin := func(h int64, txs ...*ctrlertypes.TrxContext) *ctrlertypes.BlockContext {
+		req := abcitypes.RequestBeginBlock{Header: tmtypes.Header{Height: h}}
+		bctx := ctrlertypes.NewBlockContext(req, gov, acct, nil)
+		if _, xerr := ctrler.BeginBlock(bctx); xerr != nil {
+			t.Fatalf("BeginBlock(%d): %v", h, xerr)
+		}
+		for _, tx := range txs {
+			if xerr := ctrler.ExecuteTrx(tx); xerr != nil {
+				t.Fatalf("ExecuteTrx at %d: %v", h, xerr)
+			}
+		}
+		return bctx
+	}
+	end := func(bctx *ctrlertypes.BlockContext) {
+		if _, xerr := ctrler.EndBlock(bctx); xerr != nil {
+			t.Fatal(xerr)
+		}
+		if _, _, xerr := ctrler.Commit(); xerr != nil {
+			t.Fatal(xerr)
+		}
+	}
+	p := ctrlertypes.AmountToPower(gov.MinValidatorStake())
+	end(begin(1, zzStakeTx(t, gov, acct, acct.GetWallet(0), acct.GetWallet(0), p, 1), zzStakeTx(t, gov, acct, acct.GetWallet(1), acct.GetWallet(1), p, 1), zzStakeTx(t, gov, acct, acct.GetWallet(2), acct.GetWallet(2), p, 1)))
+	end(begin(2)) // the three validators are announced at the end of block 2: the limiter is active from block 3
+	return ctrler, gov, acct, begin
+}
+
+func TestReplay_CheckTxChangesDeliverVerdict(t *testing.T) {
+	dirA := filepath.Join(os.TempDir(), "zz-replay-stake-f6a")
+	dirB := filepath.Join(os.TempDir(), "zz-replay-stake-f6b")
+	defer os.RemoveAll(dirA)
+	defer os.RemoveAll(dirB)
+	// node A: block 3 delivers a delegation of 1 to validator 0
+	ctrlA, govA, acctA, beginA := zzThreeValidators(t, dirA)
+	beginA(3)
+	txA := zzStakeTx(t, govA, acctA, acctA.GetWallet(3), acctA.GetWallet(0), 1, 3)
+	verdictA := ctrlA.ValidateTrx(txA)
+	// node B: the same, but the mempool check of the same transaction is served first (Exec=false)
+	ctrlB, govB, acctB, beginB := zzThreeValidators(t, dirB)
+	beginB(3)
+	chk := zzStakeTx(t, govB, acctB, acctB.GetWallet(3), acctB.GetWallet(0), 1, 3)
+	chk.Exec = false
+	_ = ctrlB.ValidateTrx(chk)
+	txB := zzStakeTx(t, govB, acctB, acctB.GetWallet(3), acctB.GetWallet(0), 1, 3)
+	verdictB := ctrlB.ValidateTrx(txB)
+	if (verdictA == nil) != (verdictB == nil) {
+		t.Fatalf("REPLAY-VIOLATION: the consensus-path validation of the same staking transaction in the same block is %v on a node that served no CheckTx and %v on a node that served a CheckTx of it first: the mempool check mutated the stake limiter", verdictA, verdictB)
+	}
+}
